@@ -163,6 +163,17 @@ struct mcount_thread_data {
 	struct list_head pmu_fds;
 };
 
+/*
+ * cygprof/xray entries beyond mcount_rstack_max only count in mtdp->idx (their
+ * exit hook is called anyway): the number of rstack entries that really exist.
+ */
+extern int mcount_rstack_max;
+
+static inline int mcount_rstack_depth(struct mcount_thread_data *mtdp)
+{
+	return mtdp->idx > mcount_rstack_max ? mcount_rstack_max : mtdp->idx;
+}
+
 #ifdef HAVE_MCOUNT_ARCH_CONTEXT
 extern void mcount_save_arch_context(struct mcount_arch_context *ctx);
 extern void mcount_restore_arch_context(struct mcount_arch_context *ctx);
